@@ -30,6 +30,16 @@ NEEDS={
  "C25-1":("C25","an RBS overload with a trailing positional but no rest parameter ((?Integer, Integer)): the trailing parameter is dropped"),
  "C26-1":("C26","an mrbc binding whose typed GET_*_ARG indexes are sparse (an argument read through untyped GET_ARG(n) in between)"),
  "C27-1":("C27","a class nested in a class, wrapped in two modules, whose unqualified superclass/mixin lives in the middle namespace (resolution jumps from M1::M2::Outer to M1)"),
+ "C02-2":("C02","a method parameter declared with a default that is a target of a multiple assignment with an Array right-hand side (`first, second = second, first` in `def order(first, second = nil)`): the index loop no longer advances and reads no token"),
+ "C04-2":("C04","a diagnostic whose message quotes a string literal that spans two lines (`attr_accessor \"na<newline>me\"`, `x.\"a<newline>b\"`): newline escaping moved from the central sink to one call site"),
+ "C07-2":("C07","a configured method with a positional parameter and two or more keyword parameters declared in non-alphabetical order, called with a wrong-typed value for a keyword declared before but sorting after another supplied keyword"),
+ "C08-2":("C08","one of the comparison operators of power 35 (==, !=, ===, <=>, =~, !~) in operator form with a brace hash literal as right operand (`n == {a: 1}`): the brace is taken for a block and no argument is collected"),
+ "C13-2":("C13","a class with two user-defined ancestors (one attached by include/extend) that define the same method with different result types, and a rename that flips the alphabetical order of the ancestors"),
+ "C14-2":("C14","a user-defined callee with a `**opts` parameter, two or more keyword arguments whose values have different types, and an output that renders the collected value union"),
+ "C15-2":("C15","f(a) called directly with one type (site known in the first round) and through two intermediate methods with another type, callee defined first"),
+ "C16-2":("C16","a class three namespaces deep whose unqualified superclass or included module is defined in a middle namespace (the outward walk jumps from A::B::C to A)"),
+ "C17-2":("C17","a brace block after parenthesised arguments on a configured method that is overloaded and declares block_parameters only on the overload (Dir.glob / Dir.open / Dir.chdir shape)"),
+ "C18-2":("C18","two or more preload files listed in an order that is not the lexical order of their paths, with conflicting definitions of a name the target uses (the preload list is sorted)"),
  "C01-2":("C01","a source file whose last two bytes contain ill-formed UTF-8 (Latin-1 text, or a byte prefix cut inside a multi-byte character); the reader advances by the canonical length of U+FFFD and slices past the end, outside the recover barrier"),
  "C03-2":("C03","a non-ASCII decimal digit (fullwidth, Arabic-Indic, Devanagari) at a token start or after `1.`: lexDigit rejects it without consuming it and emits Float tokens for ever"),
  "C05-2":("C05","two same-named classes in two different user modules holding a method with identical name, static-ness and signature text, listed by --llm-nav --target=<Class> or --llm-define --class=<Class> (sort leaves their order to map iteration)"),
